@@ -138,8 +138,20 @@ def prefix_holds(s, pat):
     return And(s.length() >= len(pat), *[s.char(iv(k)) == ch for k, ch in enumerate(pat)])
 
 
+def sym_prefix(s, p):
+    """z3 Bool: string s starts with string p (both single windows)"""
+    sw, pw = s.single_win(), p.single_win()
+    if sw is None or pw is None or sw.xf or pw.xf:
+        raise Unsupported("startswith with a symbolic pattern that is not a plain window")
+    j = qvar("j")
+    return And(pw.length() <= sw.length(),
+               z3.ForAll([j], Implies(And(0 <= j, j < pw.length()), z3.Select(sw.base, sw.lo + j) == z3.Select(pw.base, pw.lo + j))))
+
+
 def m_startswith(ex, st, s, args):
     a = args[0]
+    if isinstance(a, SStr) and a.concrete() is None and len(args) == 1:
+        return [ex.res(st, SBool(sym_prefix(s, a)))]
     pats = [lit_of(x, "startswith") for x in a.items] if isinstance(a, STuple) else [lit_of(a, "startswith")]
     if len(args) > 1:
         raise Unsupported("startswith with start/end")
@@ -258,6 +270,9 @@ def m_lower(ex, st, s, args):
 
 
 def m_replace(ex, st, s, args):
+    if any(isinstance(x, SStr) and x.concrete() is None for x in args[:2]):
+        # replace with a symbolic pattern / replacement: over-approximated by an arbitrary string of the same kind
+        return [ex.res(st, fresh_str(st, "replaced", s.is_str))]
     a, b = lit_of(args[0], "replace"), lit_of(args[1], "replace")
     c = s.concrete()
     if c is not None:
